@@ -15,6 +15,7 @@
   `C26_partial` is the B-tree correctness theorem for every history outside these two triggers.
 -/
 import Nervus.Proofs.BTreeRun
+import Nervus.Model.BTreeReal
 namespace Nervus.Props.C26
 open Nervus Nervus.BTree Nervus.Multimap
 
